@@ -7,6 +7,8 @@ package main
 //   insp <name> <id> <strct> <gval>            message built from the tree, then pogs.Insert over it -> resulting struct tree
 //   rt2 <name> <id> <gval> <gval>              two pogs.Insert into one struct, then pogs.Extract
 //   hostile <name> <arena> <T> <D> <segs>      pogs.Extract from a hostile message: ok/err/PANIC/HANG, allocation vs budget (hostile.go)
+//   extf <name> <id> <k> <strct>               like ext, the message built on a multi-segment arena with tiny segments (far pointers)
+//   ext2 <name> <id> <strctA> <strctB>         Extract A then B into one destination: = fresh extraction of B, A's slices intact
 //   ext <name> <id> <strct>                    message built from the tree -> pogs.Extract (+ Go-side comparison with the generated getters)
 //   gen <name> <id> <strct>                    message built from the tree -> generated getters
 
@@ -26,11 +28,29 @@ func main() { Main(runC19) }
 
 var schemaByName = map[string]*mschema{}
 
+// number of extf messages that really span several segments (far pointers)
+var farMultiSeg int
+
 func nodeOf(ms *mschema, id int) *mnode {
 	if id < 1 || id > len(ms.nodes) || ms.nodes[id-1].isGroup {
 		panic("bad case: node id")
 	}
 	return ms.nodes[id-1]
+}
+
+// farSeg: a multi-segment arena with small pre-sized segments (capacities derived from k): the
+// struct tree built in it is connected by far and double-far pointers.
+func farSeg(k int) *capnp.Segment {
+	n := 1 + k%6
+	bufs := make([][]byte, n)
+	for i := range bufs {
+		bufs[i] = make([]byte, 0, 8*(1+(k*7+i*5)%12))
+	}
+	// (capnp.NewMessage refuses an arena that already has several, empty, segments)
+	msg := &capnp.Message{Arena: capnp.MultiSegment(bufs)}
+	seg, err := msg.Segment(0)
+	must(err)
+	return seg
 }
 
 func newSeg() *capnp.Segment {
@@ -62,6 +82,18 @@ func doExtract(mn *mnode, st capnp.Struct) (res string, v reflect.Value) {
 		return "err", v
 	}
 	return "ok", v
+}
+
+func safeExtract(mn *mnode, v reflect.Value, st capnp.Struct) (res string) {
+	defer func() {
+		if e := recover(); e != nil {
+			res = "panic"
+		}
+	}()
+	if err := pogs.Extract(v.Interface(), mn.node.Id(), st); err != nil {
+		return "err"
+	}
+	return "ok"
 }
 
 func parseValue(t *toks, mn *mnode) reflect.Value {
@@ -179,9 +211,50 @@ func runCase(line string) (kind, impl, class string, nontrivial bool) {
 			r += " INACTIVE-WRITTEN"
 		}
 		return kind, r, ms.name + "/ok", true
-	case "ext", "gen":
+	case "ext2":
+		// two Extracts into the SAME destination: the result must be the one of a fresh extraction
+		// of the second message (list elements freshly zeroed: no stale union members), and the
+		// slices of the first result, kept by the caller, must stay intact
 		a := parseStruct(t)
-		st := buildStruct(newSeg(), a)
+		b := parseStruct(t)
+		stA := buildStruct(newSeg(), a)
+		stB := buildStruct(newSeg(), b)
+		v := reflect.New(mn.goType)
+		if err := safeExtract(mn, v, stA); err != "ok" {
+			return kind, err + "1", ms.name + "/" + err + "1", true
+		}
+		first := reflect.New(mn.goType).Elem()
+		first.Set(v.Elem()) // the caller keeps the value (shares the slices' backing arrays)
+		snap := rootLists(mn, first)
+		r := safeExtract(mn, v, stB)
+		if r != "ok" {
+			return kind, r, ms.name + "/" + r, true
+		}
+		g := &gprinter{}
+		g.gstruct(mn, v.Elem())
+		r = "ok" + g.sb.String()
+		if fr, fresh := doExtract(mn, stB); fr == "ok" {
+			if fs, _ := gvalOut(mn, fresh.Elem()); "ok "+fs != r {
+				r += " REUSE-DIFF fresh " + Trunc(fs, 300)
+			}
+		}
+		if g.inactiveNonZeroInList {
+			r += " INACTIVE-WRITTEN"
+		}
+		if rootLists(mn, first) != snap {
+			r += " ALIAS-CLOBBERED was" + Trunc(snap, 300)
+		}
+		return kind, r, ms.name + "/ok", true
+	case "ext", "gen", "extf":
+		seg := newSeg()
+		if kind == "extf" {
+			seg = farSeg(t.int())
+		}
+		a := parseStruct(t)
+		st := buildStruct(seg, a)
+		if kind == "extf" && seg.Message().NumSegments() > 1 {
+			farMultiSeg++
+		}
 		if back := exportStruct(st); back != a.String() {
 			panic(bug("builder/exporter disagree: " + back + " vs " + a.String()))
 		}
@@ -248,7 +321,7 @@ func runC19(out *Out, r *Rand, tier string, replay []string) {
 	if tier == "thorough" {
 		n = 600
 	}
-	g := &gen{r: r}
+	g := &gen{r: r, forceRootWhich: -1}
 	for _, ms := range schemas {
 		root := ms.root
 		for i := 0; i < n; i++ {
@@ -275,12 +348,24 @@ func runC19(out *Out, r *Rand, tier string, replay []string) {
 			do(fmt.Sprintf("gen %s %d %s", ms.name, root.id, a))
 			a = g.astruct(root, 0)
 			do(fmt.Sprintf("ext %s %d %s", ms.name, root.id, a))
+			// the same kind of tree on a multi-segment arena with tiny segments: far / double-far pointers
+			do(fmt.Sprintf("extf %s %d %d %s", ms.name, root.id, g.r.Intn(1000), g.astruct(root, 0)))
+			// two Extracts into one destination (same root member half of the time)
+			a = g.astruct(root, 0)
+			g.forceRootWhich = -1
+			if root.hasDisc && g.r.Bool() && len(a.data) >= int(root.discOff)*2+2 {
+				g.forceRootWhich = int(a.data[root.discOff*2]) | int(a.data[root.discOff*2+1])<<8
+			}
+			b := g.astruct(root, 0)
+			g.forceRootWhich = -1
+			do(fmt.Sprintf("ext2 %s %d %s %s", ms.name, root.id, a, b))
 			// C01/C02 for Extract: hostile messages, small and default limits
 			for k := 0; k < 3; k++ {
 				do(g.hostileCase(ms))
 			}
 		}
 	}
+	out.Extra["x_extf_multi_segment_messages"] = farMultiSeg
 	out.Close("cases per mapped Go type: rt/ins = random Go values (all field kinds, nil/empty, inactive members set, unknown Which) " +
 		"into structs of schema size / shorter / longer; ext/gen = struct trees generated from the schema with random data bytes, " +
 		"sections shorter/longer than the schema, null / well-kinded / wrong-kinded pointers. distinct = distinct case line; " +
